@@ -212,7 +212,13 @@ impl Array {
     fn val_iter(&self) -> impl Iterator<Item = &Val> {
         #[cfg(kepler_5_rrss_verif)]
         crate::verif_seams::probe_dict_order("val_iter", self.dict.keys());
-        self.arr.iter().chain(self.dict.values())
+        // dictionary part in sorted key order (as Display does), not hasher order
+        self.arr.iter().chain(
+            self.dict
+                .iter()
+                .sorted_by_cached_key(|(k, _)| ToString::to_string(*k))
+                .map(|(_, v)| v),
+        )
     }
 
     fn is_empty(&self) -> bool {
